@@ -539,7 +539,8 @@ class DataFile:
       if tti.VP < self.get_max_row_count() // 2:
         # top-aligned large region
         
-        r_y = DEFAULT_VERTICAL_SAFE_MARGIN_PCT + ((tti.VP - 1) / self.get_max_row_count()) * safe_area_height
+        # the first row is 1 for teletext subtitles and 0 for open subtitles: keep the region within the safe area
+        r_y = DEFAULT_VERTICAL_SAFE_MARGIN_PCT + (max(tti.VP - 1, 0) / self.get_max_row_count()) * safe_area_height
         r_height = 100 - DEFAULT_VERTICAL_SAFE_MARGIN_PCT - r_y
         
         region = _get_region_from_model(
@@ -558,7 +559,7 @@ class DataFile:
         line_height = 2 if is_double_height_characters else 1
 
         r_y = DEFAULT_VERTICAL_SAFE_MARGIN_PCT
-        r_height = ((vp + line_count * line_height - 1)/ self.get_max_row_count()) * safe_area_height
+        r_height = min(((vp + line_count * line_height - 1)/ self.get_max_row_count()) * safe_area_height, safe_area_height)
         
         region = _get_region_from_model(
           self.doc,
